@@ -10,6 +10,7 @@ pub mod c07;
 pub mod c08;
 pub mod c09;
 pub mod c10;
+pub mod c11;
 
 use crate::ctx::Ctx;
 use crate::report::Report;
@@ -27,6 +28,7 @@ pub fn dispatch(ctx: &Ctx, rep: &mut Report) -> bool {
         "C08" => c08::run(ctx, rep),
         "C09" => c09::run(ctx, rep),
         "C10" => c10::run(ctx, rep),
+        "C11" => c11::run(ctx, rep),
         _ => return false,
     }
     true
